@@ -45,7 +45,8 @@ ICY_SHORT = 'let ch = bytes [ o ] as u32 ;'
 ICY_LONG = 'let ch = u32 :: from_le_bytes ( bytes [ o .. ( o + 4 ) ] . try_into ( ) . unwrap ( ) ) ;'
 
 # fonts.rs: constants (name, type) and statements the hand-written loader models mirror (all must occur in the body)
-FONT_CONSTS = [('MAX_GLYPHS', 'usize'), ('PSF1_MAGIC', 'u16'), ('PSF1_MODE512', 'u8'), ('PSF2_MAGIC', 'u32'), ('PSF2_MAXVERSION', 'u32')]
+FONT_CONSTS = [('MAX_GLYPHS', 'usize'), ('PSF1_MAGIC', 'u16'), ('PSF1_MODE512', 'u8'), ('PSF2_MAGIC', 'u32'), ('PSF2_MAXVERSION', 'u32'),
+               ('MAX_FONT_WIDTH', 'usize'), ('MAX_FONT_HEIGHT', 'usize')]      # fix fB: the glyph size the loaders accept
 GLYPHS_PREFIX = ('let mut glyphs = HashMap :: new ( ) ; let mut ch = 0 ; '
                  'while font_height > 0 && data . len ( ) >= font_height && ch < MAX_GLYPHS { '
                  'let glyph = Glyph { data : data [ .. font_height ] . into ( ) , } ;')
@@ -54,13 +55,15 @@ def _u32(a, b, cast=''): return 'u32 :: from_le_bytes ( data [ %d .. %d ] . try_
 FONT_PINS = {
     'from_bytes': ['if data . len ( ) < 4 { return Err (',
                    'let magic16 = u16 :: from_le_bytes ( data [ 0 .. 2 ] . try_into ( ) . unwrap ( ) ) ; '
-                   'if magic16 == BitFont :: PSF1_MAGIC { return Ok ( BitFont :: load_psf1 ( font_name , data ) ) ; }',
+                   'if magic16 == BitFont :: PSF1_MAGIC { return BitFont :: load_psf1 ( font_name , data ) ; }',
                    'let magic32 = ' + _u32(0, 4) + ' if magic32 == BitFont :: PSF2_MAGIC { return BitFont :: load_psf2 ( font_name , data ) ; } '
                    'BitFont :: load_plain_font ( font_name , data )'],
     'load_psf1': ['let mode = data [ 2 ] ; let charsize = data [ 3 ] ; '
+                  'if charsize == 0 || charsize as usize > MAX_FONT_HEIGHT { return Err (', ') ; } '
                   'let length = if mode & BitFont :: PSF1_MODE512 == BitFont :: PSF1_MODE512 { 512 } else { 256 } ;',
                   ', length , ', 'glyphs : glyphs_from_u8_data ( charsize as usize , & data [ 4 .. ] ) ,'],
-    'load_plain_font': ['if data . len ( ) % 256 != 0 { return Err (', 'let char_height = data . len ( ) / 256 ;',
+    'load_plain_font': ['let char_height = data . len ( ) / 256 ; '
+                        'if data . len ( ) % 256 != 0 || char_height == 0 || char_height > MAX_FONT_HEIGHT { return Err (',
                         'length : 256 ,', 'glyphs : glyphs_from_u8_data ( char_height , data ) ,'],
     'load_psf2': ['if data . len ( ) < 32 { return Err (',
                   'let version = ' + _u32(4, 8) + ' if version > BitFont :: PSF2_MAXVERSION { return Err (',
@@ -68,7 +71,9 @@ FONT_PINS = {
                   'let length = ' + _u32(16, 20, ' as usize') + ' let charsize = ' + _u32(20, 24, ' as usize') +
                   ' let expected = length . checked_mul ( charsize ) . and_then ( | size | size . checked_add ( headersize ) ) ; '
                   'if expected != Some ( data . len ( ) ) || length > MAX_GLYPHS { return Err (',
-                  'let height = ' + _u32(24, 28, ' as usize'),
+                  'let height = ' + _u32(24, 28, ' as usize') + ' let width = ' + _u32(28, 32, ' as usize') +
+                  ' if width == 0 || width > MAX_FONT_WIDTH || height == 0 || height > MAX_FONT_HEIGHT { return Err (',
+                  ') ; } if charsize != height { return Err (',
                   'length : length as i32 ,', 'glyphs : glyphs_from_u8_data ( height , & data [ headersize .. ] ) ,'],
     'create_8': ['length : 256 ,', 'glyphs : glyphs_from_u8_data ( height as usize , data ) ,'],
     'from_basic': ['length : 256 ,', 'glyphs : glyphs_from_u8_data ( height as usize , data ) ,'],
